@@ -14,6 +14,10 @@ use crate::vm::vcell::VCell::{BasePointerOffset, LexicalEnvSlot};
 use log::trace;
 use std::rc::Rc;
 
+/// How deep macro expansions may be nested within one another before the
+/// expander gives up on a form.
+const MAX_NESTED_EXPANSIONS: usize = 1000;
+
 macro_rules! car {
     ($cell:expr) => {{
         $cell
@@ -76,49 +80,84 @@ impl Vm {
     /// Apply pre-compilation transforms to expr, returning the transformed
     /// AST.
     pub fn transform(&mut self, expr: &Cell) -> Result<Cell, Error> {
+        self.transform_expanded(expr, 0)
+    }
+
+    /// Transform Expanded
+    ///
+    /// Transform expr, which is nested within `expansions` macro expansions. A
+    /// macro whose expansion uses itself without end is reported as an error
+    /// instead of exhausting the native stack.
+    fn transform_expanded(&mut self, expr: &Cell, expansions: usize) -> Result<Cell, Error> {
         match expr {
-            Cell::Pair(_, _) => self.transform_procedure_application(expr),
+            Cell::Pair(_, _) => self.transform_application_expanded(expr, expansions),
             cell => Ok(cell.clone()),
         }
     }
 
     pub fn transform_procedure_application(&mut self, expr: &Cell) -> Result<Cell, Error> {
-        let proc = expr.car().unwrap();
-        let mut rest = expr.cdr().unwrap();
+        self.transform_application_expanded(expr, 0)
+    }
 
-        if let Cell::Symbol(proc) = proc {
-            if let "quote" | "define-syntax" = proc.as_str() {
+    fn transform_application_expanded(
+        &mut self,
+        expr: &Cell,
+        expansions: usize,
+    ) -> Result<Cell, Error> {
+        // A macro use is replaced by its expansion, which may again be a macro
+        // use: loop rather than recurse, so that only nesting costs native stack.
+        let mut expansions = expansions;
+        let mut expanded: Option<Cell> = None;
+        loop {
+            let expr = expanded.as_ref().unwrap_or(expr);
+            if !expr.is_pair() {
                 return Ok(expr.clone());
             }
-            // Only the unquoted parts of a quasiquote template are expressions
-            if proc == "quasiquote" && rest.is_pair() && rest.cdr().unwrap().is_nil() {
-                let template = self.transform_quasiquote(rest.car().unwrap(), 0)?;
-                return Ok(Cell::new_list(vec![Cell::new_symbol("quasiquote"), template]));
-            }
-        }
+            let proc = expr.car().unwrap();
+            let mut rest = expr.cdr().unwrap();
 
-        if let Some(sym) = self.heap.get_sym_ref(proc) {
-            let vcell = match self.globenv.get(sym.as_ptr()?) {
-                Some(VCell::Ptr(ptr)) => Some(self.heap.get_at_index(ptr).clone()),
-                vcell => vcell,
+            if let Cell::Symbol(proc) = proc {
+                if let "quote" | "define-syntax" = proc.as_str() {
+                    return Ok(expr.clone());
+                }
+                // Only the unquoted parts of a quasiquote template are expressions
+                if proc == "quasiquote" && rest.is_pair() && rest.cdr().unwrap().is_nil() {
+                    let template = self.transform_quasiquote(rest.car().unwrap(), 0, expansions)?;
+                    return Ok(Cell::new_list(vec![Cell::new_symbol("quasiquote"), template]));
+                }
+            }
+
+            if let Some(sym) = self.heap.get_sym_ref(proc) {
+                let vcell = match self.globenv.get(sym.as_ptr()?) {
+                    Some(VCell::Ptr(ptr)) => Some(self.heap.get_at_index(ptr).clone()),
+                    vcell => vcell,
+                };
+                if let Some(VCell::Macro(transform)) = vcell {
+                    if expansions >= MAX_NESTED_EXPANSIONS {
+                        return Err(InvalidSyntax(format!(
+                            "macro expansion of {} is nested more than {} deep",
+                            proc, MAX_NESTED_EXPANSIONS
+                        )));
+                    }
+                    let expansion = transform.transform(expr)?;
+                    trace!("macro expansion: {} => {}", expr, expansion);
+                    expansions += 1;
+                    expanded = Some(expansion);
+                    continue;
+                }
+            }
+
+            let mut v = vec![self.transform_expanded(proc, expansions)?];
+            while rest.is_pair() {
+                v.push(self.transform_expanded(rest.car().unwrap(), expansions)?);
+                rest = rest.cdr().unwrap();
+            }
+            return if rest.is_nil() {
+                Ok(Cell::new_list(v))
+            } else {
+                let rest = self.transform_expanded(rest, expansions)?;
+                Ok(Cell::new_improper_list(v, rest))
             };
-            if let Some(VCell::Macro(transform)) = vcell {
-                let expansion = transform.transform(expr)?;
-                trace!("macro expansion: {} => {}", expr, expansion);
-                return self.transform(&expansion);
-            }
-        }
-
-        let mut v = vec![self.transform(proc)?];
-        while rest.is_pair() {
-            v.push(self.transform(rest.car().unwrap())?);
-            rest = rest.cdr().unwrap();
-        }
-        if rest.is_nil() {
-            Ok(Cell::new_list(v))
-        } else {
-            let rest = self.transform(rest)?;
-            Ok(Cell::new_improper_list(v, rest))
         }
     }
 
@@ -127,31 +166,36 @@ impl Vm {
     /// Apply pre-compilation transforms to the expressions a quasiquote template
     /// unquotes at the outermost level, leaving the quoted parts of the template
     /// (which are data, whatever they look like) untouched.
-    fn transform_quasiquote(&mut self, template: &Cell, depth: usize) -> Result<Cell, Error> {
+    fn transform_quasiquote(
+        &mut self,
+        template: &Cell,
+        depth: usize,
+        expansions: usize,
+    ) -> Result<Cell, Error> {
         match template {
             Cell::Pair(car, cdr) => {
                 let is_form = cdr.is_pair() && cdr.cdr().unwrap().is_nil();
                 if is_form && car.is_unquote() {
                     let expr = cdr.car().unwrap();
                     let expr = match depth {
-                        0 => self.transform(expr)?,
-                        _ => self.transform_quasiquote(expr, depth - 1)?,
+                        0 => self.transform_expanded(expr, expansions)?,
+                        _ => self.transform_quasiquote(expr, depth - 1, expansions)?,
                     };
                     Ok(Cell::new_list(vec![Cell::new_symbol("unquote"), expr]))
                 } else if is_form && car.is_quasiquote() {
-                    let expr = self.transform_quasiquote(cdr.car().unwrap(), depth + 1)?;
+                    let expr = self.transform_quasiquote(cdr.car().unwrap(), depth + 1, expansions)?;
                     Ok(Cell::new_list(vec![Cell::new_symbol("quasiquote"), expr]))
                 } else {
                     Ok(Cell::new_pair(
-                        self.transform_quasiquote(car, depth)?,
-                        self.transform_quasiquote(cdr, depth)?,
+                        self.transform_quasiquote(car, depth, expansions)?,
+                        self.transform_quasiquote(cdr, depth, expansions)?,
                     ))
                 }
             }
             Cell::Vector(vector) => {
                 let mut transformed = Vec::with_capacity(vector.len());
                 for it in vector {
-                    transformed.push(self.transform_quasiquote(it, depth)?);
+                    transformed.push(self.transform_quasiquote(it, depth, expansions)?);
                 }
                 Ok(Cell::Vector(transformed))
             }
